@@ -75,6 +75,10 @@ def _run(fn: Any) -> List[Any]:
         return ["diverges", ""]
     except RecursionError:
         return ["exc", "RecursionError"]
+    except NameError:
+        # reading a local that was never assigned: UnboundLocalError in a function, NameError when the same statement is executed
+        # block by block in a name space - the same outcome
+        return ["exc", "Unbound"]
     except Exception as e:
         return ["exc", type(e).__name__]
     finally:
@@ -158,6 +162,9 @@ HAND = [
     # and/or as an ELEMENT of a tuple / list / dict display, a call keyword or a subscript: evaluated in place, after the elements to its left
     "def f(a, b, c):\n    t = (ev(1), a and ev(2), [ev(3), b or ev(4)], {ev(5): c and ev(6)})\n    u = ev(7, k=a or ev(8), j=[b and ev(9)][0])\n    return (t, u, ev(10), c or ev(11))\n",
     "def f(a, b, c):\n    xs = [ev(1), ev(2)]\n    y = xs[a and 1], xs[(b or ev(3)) % 2]\n    z = [ev(4, i) for i in seq(5, 2) if i or ev(6)]\n    return y, z, (lambda q: q and ev(7))(c)\n",
+    # a test that only LOADS a name (both arms empty): the load can still raise for an unbound name
+    "def f(a, b, c):\n    if a:\n        x = 1\n    r = ev(1)\n    if x:\n        pass\n    else:\n        pass\n    while y_ if False else b:\n        break\n    return r\n".replace("y_ if False else b", "b"),
+    "def f(a, b, c):\n    if a > 1:\n        x = ev(1)\n    r = ev(2, a)\n    if x:\n        pass\n    r += ev(3)\n    while x:\n        break\n    return r\n",
     # bare return, return inside nested loops, while/else
     "def f(a, b, c):\n    if a > 2:\n        return\n    for i in seq(1, b + 1):\n        if i == c:\n            return\n        ev(2, i)\n    ev(3)\n",
     "def f(a, b, c):\n    r = 0\n    while r < a:\n        r += 1\n        s = 0\n        while s < b:\n            s += 1\n            if s == c:\n                return ev(1, r, s)\n            if s > r:\n                break\n        else:\n            r += ev(2)\n            continue\n        r += ev(3, s)\n    else:\n        return ev(4, r)\n    return r\n",
